@@ -3,6 +3,7 @@ package e1
 import (
 	"fmt"
 	"os"
+	"syscall"
 	"time"
 
 	"github.com/digitalocean/firebolt/node"
@@ -75,7 +76,13 @@ func runLock(orig, pred sx.Tree) sx.Tree {
 		close(l.execDone)
 	}()
 	srcInc, srcSt := 0, int64(0)
-	snap := func() sx.Tree { return r.snapshot(l.tab, l.mainCode(), sx.Ints(srcSt, int64(srcInc))) }
+	snap := func() sx.Tree {
+		if r.sourceEnded() {
+			// observed, not assumed: some incarnation's Start has returned nil
+			return r.snapshot(l.tab, l.mainCode(), sx.Ints(2, 0))
+		}
+		return r.snapshot(l.tab, l.mainCode(), sx.Ints(srcSt, int64(srcInc)))
+	}
 	// wait until the implementation shows the predicted quiescent snapshot (and keeps it), or give up
 	await := func(want string, limit time.Duration) sx.Tree {
 		deadline := time.Now().Add(limit)
@@ -170,14 +177,17 @@ func runLock(orig, pred sx.Tree) sx.Tree {
 					}
 				}
 				if c.At(0).Int() == 4 {
-					srcSt = 2
-					srcInc = 0
+					// the snapshot shows the source as ended once its Start has returned nil
 				} else {
 					srcInc++
 					limit = 13 * time.Second
 				}
 			case 6:
 				limit = time.Duration(timeout)*time.Second + 2500*time.Millisecond
+			case 7:
+				// a real signal: executor.New registered the executor for it (signal.Notify), so the process survives
+				_ = syscall.Kill(os.Getpid(), syscall.SIGTERM)
+				time.Sleep(25 * time.Millisecond)
 			}
 			t0 := time.Now()
 			var s sx.Tree
@@ -219,7 +229,12 @@ func runLock(orig, pred sx.Tree) sx.Tree {
 		}
 	}
 	l.cleanup()
-	return sx.T(netd, snap0, sx.T(snaps...), sx.T(waits...))
+	// what is there once everything has been let through: judged only if Execute returned with every node shut down
+	r.mu.Lock()
+	em := r.emitted
+	r.mu.Unlock()
+	fin := sx.T(snap(), sx.L(em))
+	return sx.T(netd, snap0, sx.T(snaps...), sx.T(waits...), fin)
 }
 
 func (r *rt) byNid(nid int64) *hnode {
